@@ -167,7 +167,8 @@ EXTRA = {
            "reply may be cut exactly between the player and the team section.",
     "C05": " Both spellings of the version variable in one reply (D19).",
     "C06": " Lists of 64 entries dealt over datagrams at random boundaries; UCS-2 strings with the uncounted 01 byte.",
-    "C08": " bzip2-compressed Source replies (Reassembly.tla comp / hdr: the header travels in fragment 0 wherever it arrives); six "
+    "C08": " Recorded random deliveries (2-8 fragments, duplicates, a missing fragment) trace-validated against Trace_Reassembly.tla;"
+           " bzip2-compressed Source replies (Reassembly.tla comp / hdr: the header travels in fragment 0 wherever it arrives); six "
            "fragments sampled by TLC's simulation mode.",
     "C09": " Destination sweep: every table row x address x port given / omitted x silent / refusing server through the "
            "definition-driven entry point; the Java handshake also through the caller's extra request settings (each one set / unset).",
@@ -180,7 +181,8 @@ EXTRA = {
     "C14": " The documented Valve-to-game conversion is re-stated in the harness (not taken from the library).",
     "C18": " The HTTP client (Eco) on a real socket with every accepted timeout combination.",
     "C19": " Timeout flag values that denote no representable duration (nan, inf, 1e20, 2^64) for each of the three flags; keys that are XML "
-           "names with 2-, 3- and 4-byte characters at every early offset and with the reserved prefix.",
+           "names with 2-, 3- and 4-byte characters at every early offset and with the reserved prefix; a named host with a request option; "
+           "every run of the binary trace-validated by TLC against Trace_Cli.tla (exit / print rule).",
     "C20": " Inner / trailing numbers up to 2^64 (IdRules.tla mag); candidate ids derived from every number in the name and from the "
            "name without its bracket.",
 }
